@@ -1,5 +1,5 @@
 (* C05 - each operation completes exactly once, with the acknowledgement addressed to it. *)
-From Poster Require Import Model.Client Proofs.ClientP.
+From Poster Require Import Model.Sim Proofs.ClientP Proofs.SimInvP Proofs.OwnP Proofs.ByteRangeP Proofs.TypedP.
 
 (* the key under which an operation waits - (expected acknowledgement type << 24) | (id << 8) -
    identifies type and identifier uniquely *)
@@ -41,3 +41,42 @@ Print Assumptions C05_stays_pending.
 Theorem C05_at_most_once : forall (ch : chan) (v w : cval), ch = CFull w -> fill_chan ch v = CFull w.
 Proof. exact fill_chan_full. Qed.
 Print Assumptions C05_at_most_once.
+
+(* ---- every history ---------------------------------------------------------------------------------------------
+   `wf_run sys_init evs`: a script of events (Model/Sim.v) in which operations are started under fresh indices,
+   the transport delivers bytes (< 256), and the harness's batch event is not used; otherwise arbitrary:
+   any operations from any handle clones, any packets (expected, unexpected, stray, wrong type for a pending
+   identifier, malformed) in any order and chunking, drops, faults, reconnects.
+
+   In every state such a script reaches, whatever sits in an operation's oneshot is the acknowledgement KIND that
+   operation and phase wait for - PINGRESP for a ping, SUBACK for a subscribe, UNSUBACK for an unsubscribe, PUBACK
+   for a QoS 1 publish, PUBREC then PUBCOMP for a QoS 2 publish - never another operation's kind: the registration
+   key (type << 24 | id << 8) separates the kinds, and identifiers decoded from bytes are u16. *)
+Theorem C05_completion_typed : forall (evs : list event) (i : N) (o : op) (p : rxpkt), wf_run sys_init evs ->
+  let s := final_state sys_init evs in
+  alookup i (ops s) = Some o ->
+  (o_ch1 o = CFull (CPkt p) -> expect (o_kind o) 1 = Some (rk p)) /\
+  (o_ch2 o = CFull (CPkt p) -> expect (o_kind o) 2 = Some (rk p)).
+Proof. exact completion_typed. Qed.
+Print Assumptions C05_completion_typed.
+
+(* ... so polling a started operation future never reaches the unreachable!() arms of handle.rs *)
+Theorem C05_no_unreachable : forall (evs : list event) (i : N) (o : op), wf_run sys_init evs ->
+  let s := final_state sys_init evs in
+  alookup i (ops s) = Some o -> o_phase o <> NotStarted -> ~ In (ODone i RPanic) (snd (poll_op s i)).
+Proof. exact no_unreachable. Qed.
+Print Assumptions C05_no_unreachable.
+
+Example C05_nonvacuous :
+  let evs := [EConnect (Build_connect_opts [99] 0 None None None None None None None None [] 0 false false
+                          None None None None None None [] None None None None);
+              EDeliver [32; 3; 0; 0; 0]; ERun;
+              EStart 0 0 (OPub (Build_publish_opts 2 false (Some [97]) None None None None None None None []));
+              EPoll 0; EStart 1 0 (OUnsub (Build_unsubscribe_opts [[97]] [])); EPoll 1;
+              EDeliver [176; 4; 0; 1; 0; 0];          (* UNSUBACK carrying the PUBLISH's identifier 1: wrong type, absorbed *)
+              EDeliver [80; 2; 0; 1]; EPoll 0; EDeliver [112; 2; 0; 1]] in
+  wf_run sys_init evs /\ snd (poll_op (final_state sys_init evs) 0) = [ODone 0 ROk] /\
+  snd (poll_op (final_state sys_init evs) 1) = [OPend 1].
+Proof.
+  cbv zeta. split; [apply wf_runb_ok; vm_compute; reflexivity|vm_compute; auto].
+Qed.
